@@ -16,6 +16,7 @@ import TLX.Drv.Options
 import TLX.Drv.Container
 import TLX.Drv.Reasm
 import TLX.Drv.Session
+import TLX.Drv.Pipeline
 import TLX.Drv.CryptoStream
 import TLX.Drv.UdpOut
 import TLX.Drv.TlsMsgs
@@ -37,6 +38,7 @@ def main (args : List String) : IO UInt32 := do
   | ["reasm"] => TLX.Drv.Reasm.main; return 0
   | ["dissect"] => TLX.Drv.Dissect.main; return 0
   | ["reasm-legacy"] => TLX.Drv.Reasm.mainLegacy; return 0
+  | ["pipeline"] => TLX.Drv.Pipeline.main; return 0
   | ["session"] => TLX.Drv.Session.main; return 0
   | ["cryptostream"] => TLX.Drv.CryptoStream.main; return 0
   | ["udpout"] => TLX.Drv.UdpOut.main; return 0
